@@ -275,7 +275,12 @@ static uint64_t run_op(int fam, uint64_t seed) {
         bool ok = embedded_pairing_bls12_381_gt_equal(&dec, &msg);
         embedded_pairing_wkdibe_decrypt(&dec, &ct, &S.sk);
         bool ok2 = embedded_pairing_bls12_381_gt_equal(&dec, &msg);
-        d = fnv(d, &ct, sizeof ct); d = fnv(d, &ok, 1); d = fnv(d, &ok2, 1); d = fnv(d, &q.a0, sizeof q.a0); break;
+        d = fnv(d, &ct, sizeof ct); d = fnv(d, &ok, 1); d = fnv(d, &ok2, 1); d = fnv(d, &q.a0, sizeof q.a0);
+        // call forms in which an argument aliases the output (no operand is marked restrict): whatever such a call computes, it is a
+        // function of its arguments - the same on every thread, and it leaves no trace in the library
+        embedded_pairing_wkdibe_ciphertext_t ci; ci.a = msg; embedded_pairing_wkdibe_encrypt(&ci, &ci.a, &S.p, &S.al, prng);
+        embedded_pairing_wkdibe_gt_t dm = ct.a; embedded_pairing_wkdibe_ciphertext_t cj = ct; embedded_pairing_wkdibe_decrypt(&cj.a, &cj, &q); (void) dm;
+        d = fnv(d, &ci, sizeof ci); d = fnv(d, &cj.a, sizeof cj.a); break;
     }
     case 7: {
         embedded_pairing_wkdibe_signature_t sg; embedded_pairing_wkdibe_sign(&sg, &S.p, &S.sk, &S.al, &k, prng);
